@@ -76,6 +76,7 @@ const c06MaxPlugins = 8
 // answer in well under a millisecond); c06NormalTimeout is the package-wide setting of this
 // test binary otherwise.
 const (
+	c06StallLimit    = 100 * time.Millisecond
 	c06SlowTimeout   = 400 * time.Millisecond
 	c06NormalTimeout = 30 * time.Second
 )
@@ -374,6 +375,7 @@ type c06Plugin struct {
 	// the runtime closed the connection although the plugin was neither stopped nor slow
 	ClosedByRuntime bool   `json:"closed_by_runtime,omitempty"`
 	RegErr          string `json:"reg_err,omitempty"`
+	RegMs           int    `json:"reg_ms,omitempty"` // wall clock of the registration
 	Refused         bool   `json:"refused,omitempty"`
 	TimedOut        bool   `json:"timed_out,omitempty"`
 
@@ -402,11 +404,13 @@ type c06Req struct {
 }
 
 type c06Hist struct {
-	Infra    string       `json:"infra,omitempty"`
-	Restarts int          `json:"restarts,omitempty"`
-	Plugins  []*c06Plugin `json:"plugins"`
-	Reqs     []*c06Req    `json:"requests"`
-	Log      []c06Entry   `json:"log"`
+	RuntimeLog []string     `json:"runtime_log,omitempty"` // warnings and errors logged by nri during the case
+	MaxStallMs int          `json:"max_stall_ms"`          // longest time a 2 ms ticker was kept from running
+	Infra      string       `json:"infra,omitempty"`
+	Restarts   int          `json:"restarts,omitempty"`
+	Plugins    []*c06Plugin `json:"plugins"`
+	Reqs       []*c06Req    `json:"requests"`
+	Log        []c06Entry   `json:"log"`
 }
 
 var c06CaseCtr atomic.Int64
@@ -570,6 +574,8 @@ func (x *c06Exec) register(s C06Step) {
 	p.fp = fp
 
 	p.RegStart = x.ctr.Add(1)
+	regT0 := time.Now()
+	defer func() { p.RegMs = int(time.Since(regT0) / time.Millisecond) }()
 	cn := connectAndWait(x.rt, fp, synced, closed, p.WireZero)
 	p.RegErr, p.Refused, p.TimedOut = shortErr(cn.startErr), cn.refused, cn.timedOut
 	if cn.startErr == nil && !cn.refused && !cn.timedOut {
@@ -781,12 +787,14 @@ func (x *c06Exec) history() *c06Hist {
 			p.ClosedByRuntime = true
 		}
 	}
-	h := &c06Hist{Infra: x.infra, Restarts: x.restarts, Plugins: x.plugins, Reqs: append([]*c06Req(nil), x.reqs...), Log: append([]c06Entry(nil), x.log...)}
+	h := &c06Hist{RuntimeLog: runtimeErrors.snapshot(), MaxStallMs: int(stallMax() / time.Millisecond), Infra: x.infra, Restarts: x.restarts, Plugins: x.plugins, Reqs: append([]*c06Req(nil), x.reqs...), Log: append([]c06Entry(nil), x.log...)}
 	sort.Slice(h.Reqs, func(i, j int) bool { return h.Reqs[i].Start < h.Reqs[j].Start })
 	return h
 }
 
 func runC06(c C06Case) ev.Outcome {
+	runtimeErrors.reset()
+	stallReset()
 	x, err := newC06Exec(c)
 	if err != nil {
 		return ev.Outcome{Overloaded: true, Classes: []string{"infra:" + shortErr(err)}}
@@ -846,6 +854,21 @@ func judgeC06(c C06Case, h *c06Hist) ev.Outcome {
 
 	if h.Infra != "" {
 		return ev.Outcome{Overloaded: true, History: h, Classes: []string{"infra:" + h.Infra}}
+	}
+	// Evidence of an oversubscribed machine: the 2 ms ticker of the stall monitor was kept from
+	// running for c06StallLimit or longer at least once while the case ran. It never decides
+	// anything by itself; it only qualifies the two symptoms that load can produce although no
+	// clause of the property is involved: a registration that does not complete (the stub's
+	// fixed 5 s start / registration timers) and a plugin that loses its connection without
+	// having been stopped or made slow by the history.
+	loaded := time.Duration(h.MaxStallMs)*time.Millisecond >= c06StallLimit
+	for _, p := range h.Plugins {
+		if (p.RegErr != "" || p.Refused) && (loaded || p.RegMs >= 2000) {
+			return ev.Outcome{Overloaded: true, History: h, Classes: []string{"registration-failed-under-load"}}
+		}
+		if p.ClosedByRuntime && loaded {
+			return ev.Outcome{Overloaded: true, History: h, Classes: []string{"plugin-lost-connection-under-load"}}
+		}
 	}
 	// registrations: every generated registration is well-formed (two-digit index, mask within
 	// the thirteen events) and must be accepted
@@ -1085,6 +1108,16 @@ func judgeC06(c C06Case, h *c06Hist) ev.Outcome {
 	out.Classes = append(out.Classes, fmt.Sprintf("callers:%d", maxCallers))
 	if vetoes > 0 {
 		classes["vetoed"] = true
+	}
+	switch st := h.MaxStallMs; {
+	case st >= 100:
+		classes["stall:100ms+"] = true
+	case st >= 50:
+		classes["stall:50-100ms"] = true
+	case st >= 10:
+		classes["stall:10-50ms"] = true
+	default:
+		classes["stall:<10ms"] = true
 	}
 	if c.PreStop {
 		classes["runtime-stopped-before-first-start"] = true
